@@ -85,6 +85,28 @@ def hashed_inputs(rng, n):
             out.append((tr, '#[%s(rename_all = "%s")] enum E { %s }' % (at, casing, c)))
             out.append((tr, '#[%s(rename_all = "%s")] struct %s;' % (at, casing, (pairs[0][0] + pairs[0][1]))))
             out.append((tr, '#[%s(rename_all = "%s")] struct %s;' % (at, casing, (pairs[0][0] + pairs[0][1].lower()))))
+        # the same attribute tokens and item body under two DIFFERENT derives of one family (a memo keyed by the attribute
+        # alone would hand the first one's answer to the second); each pair has a spelling of its own so that pairs do not
+        # share a key with each other
+        fmt = [("Display", "display"), ("Binary", "binary"), ("Octal", "octal"), ("LowerHex", "lower_hex"), ("UpperHex", "upper_hex"),
+               ("LowerExp", "lower_exp"), ("UpperExp", "upper_exp"), ("Pointer", "pointer")]
+        spell = ['"{_variant}"', 'r"{_variant}"', 'r#"{_variant}"#', '"{_variant}",', '"{_0}"', 'r"{_0}"', '"{}", _0', '"{0}", _0', '"<{_variant}>"', '"{_variant} {_0}"']
+        (t1, a1), (t2, a2) = rng.sample(fmt, 2)
+        if k % 2 == 0:
+            (t1, a1) = fmt[0]
+            (t2, a2) = rng.choice(fmt[1:])
+        sp = spell[k % len(spell)]
+        for tr, at in ((t1, a1), (t2, a2)):
+            if "_variant" in sp:
+                out.append((tr, '#[%s(%s)] enum E { A(u8), #[%s("{_0:x}")] B(u8), C(i32) }' % (at, sp, at)))
+            else:
+                out.append((tr, '#[%s(%s)] enum E { A(u8), #[%s("{_0:x}")] B(u8), C(i32) }' % (at, sp, at)))
+                out.append((tr, '#[%s(%s)] struct S<T>(T);' % (at, sp)))
+        for (d1, d2), src in ((("Deref", "DerefMut"), "struct S(#[deref] #[deref_mut] Vec<u8>, u8);"), (("Index", "IndexMut"), "struct S(#[index] #[index_mut] Vec<u8>, u8);"),
+                              (("AsRef", "AsMut"), "struct S(#[as_ref(forward)] #[as_mut(forward)] Vec<u8>, u8);"), (("Unwrap", "TryUnwrap"), "enum E { A(u8), B(u8, u16), C }"),
+                              (("Add", "Sub"), "struct S(u8, u16);"), (("From", "Into"), "struct S(u8, u16);"), (("Not", "Neg"), "enum E { A(i8), B { x: i16 } }")):
+            out.append((d1, src))
+            out.append((d2, src))
         # the same spelling meaning a type parameter in one item and a concrete type in the next
         nm = rng.choice(["T", "U", "Item", "Elem"])
         for tr, at in (("AsRef", "as_ref"), ("AsMut", "as_mut")):
@@ -198,8 +220,15 @@ def run(ctx):
     tmpdirs = [tempfile.mkdtemp(prefix="c19_%d_" % k, dir=ctx.workdir) for k in range(K)]
 
     def child(k):
+        # child 0 expands in the shuffled base order, child 1 in exactly the reverse one (for EVERY pair of inputs the two
+        # children disagree about which came first, so a leak from an earlier expansion into a later one - a cache keyed
+        # by a lossy key, a counter - shows for at least one of the two), the others in orders of their own
         order = list(ids)
-        random.Random(ctx.seed * 131 + k).shuffle(order)
+        random.Random(ctx.seed * 131).shuffle(order)
+        if k == 1:
+            order.reverse()
+        elif k > 1:
+            random.Random(ctx.seed * 131 + k).shuffle(order)
         lines = ["%d\t%s\t%s" % (i, corpus[i][0], inproc.hexs(corpus[i][1])) for i in order]
         rc, outs, err, last = inproc.run_mode("expand", lines, args=["--digest", "--info"], env=envs[k], cwd=tmpdirs[k])
         if rc != 0:
